@@ -6,7 +6,7 @@
    Lockable: the model only uses lock (blocks while owned) and unlock. *)
 From Coq Require Import List NArith Bool.
 From Pika Require Import Base.Conc Base.Agent Model.CondVar
-  Proofs.CondVarInvA Proofs.CondVarInvB Proofs.CondVarInvC Proofs.CondVarProofs.
+  Proofs.CondVarInvA Proofs.CondVarInvB Proofs.CondVarInvC Proofs.CondVarProofs Proofs.CondVarStop.
 Import ListNotations.
 
 (* releasing the user lock and becoming a waiter is atomic with respect to notifiers: whenever another
@@ -102,6 +102,17 @@ Theorem C07_timed_wait_reports : forall isos late t g td h r sg,
   cvlog (fst (cv_tstep isos late t g l)) = ERet t CWaitFor sg :: cvlog g.
 Proof. exact timed_wait_reports. Qed.
 Print Assumptions C07_timed_wait_reports.
+
+(* stop-token wait (pika tasks): once stop has been requested, no stop-token waiter stays blocked — in every
+   state in which nothing can move any more every wait(lock, stop_token, pred) has been released (and by
+   C07_wait_returns_with_lock_and_pred it returns pred() holding the lock) *)
+Theorem C07_stop_wait_returns : forall isos progs sched t,
+  (forall w, isos w = false) ->
+  let c := cv_run isos sched progs in
+  cv_stuck isos (fst c) (snd c) -> stopreq (fst c) = true ->
+  cur_op (snd c t) = CWaitStop -> blocked (cag (fst c) t) = false.
+Proof. exact stop_wait_returns. Qed.
+Print Assumptions C07_stop_wait_returns.
 
 (* pika tasks: a notifier never blocks inside its critical section *)
 Theorem C07_task_notify_never_blocks : forall isos t g l,
